@@ -63,7 +63,10 @@ fn cs_observers(c: &CharacterString, step: &mut dyn FnMut(&str)) {
     step("CharacterString Debug");
     let _ = format!("{:?}", c);
     step("CharacterString String::try_from");
-    let _ = String::try_from(c.clone());
+    if let Err(e) = String::try_from(c.clone()) {
+        step("Display / Debug of the error a failed conversion returns");
+        let _ = (format!("{}", e), format!("{:?}", e), e.to_string());
+    }
     step("CharacterString clone/into_owned/hash");
     let o = c.clone().into_owned();
     let _ = (o == *c, h(&o));
@@ -115,9 +118,15 @@ pub fn inspect(p: &Packet, step: &mut dyn FnMut(&str)) {
                 step("TXT::attributes");
                 let _ = t.attributes();
                 step("TXT::long_attributes");
-                let _ = t.clone().long_attributes();
+                if let Err(e) = t.clone().long_attributes() {
+                    step("Display / Debug of the error long_attributes returns");
+                    let _ = (format!("{}", e), format!("{:?}", e));
+                }
                 step("String::try_from(TXT)");
-                let _ = String::try_from(t.clone());
+                if let Err(e) = String::try_from(t.clone()) {
+                    step("Display / Debug of the error String::try_from(TXT) returns");
+                    let _ = (format!("{}", e), format!("{:?}", e));
+                }
                 step("TXT Debug");
                 let _ = format!("{:?}", t);
             }
@@ -165,6 +174,13 @@ pub fn check_bytes(b: &[u8]) -> (Vec<Finding>, bool) {
     let mk = || json!({"kind": "bytes", "msg": hex(b)});
     let p = match guarded(|| Packet::parse(b)) {
         Ok(Ok(p)) => p,
+        Ok(Err(e)) => {
+            // the error a rejected message yields can be formatted as well
+            return match guarded(|| (format!("{}", e), format!("{:?}", e)).0.len()) {
+                Ok(_) => (vec![], false),
+                Err(pn) => (vec![finding(format!("C12|parse-error Display|{}", pn.sig()), format!("formatting the error returned for {}: {:?}", crate::engine::truncate(&hex(b), 200), pn), mk())], false),
+            };
+        }
         _ => return (vec![], false),
     };
     let quick = guarded(|| inspect(&p, &mut |_| {}));
